@@ -39,6 +39,7 @@ ASSUMPTIONS = [
     "an exception injected at a line boundary inside _modules_copyable.__enter__/__exit__ themselves is a recorded known finding (two-variable bookkeeping cannot be made atomic), not part of the pass criterion",
 ]
 PRISTINE = dict(copyreg.dispatch_table)
+_WARN = {}  # the interpreter-global warning filters as first seen by this process: the list object and its content
 _ENV = {}
 
 
@@ -114,6 +115,14 @@ def reset_global_state():
     for k in list(copyreg.dispatch_table):
         if k not in PRISTINE:
             del copyreg.dispatch_table[k]
+    import warnings
+
+    if not _WARN:
+        _WARN.update(obj=warnings.filters, content=list(warnings.filters))
+    elif warnings.filters is not _WARN["obj"] or list(warnings.filters) != _WARN["content"]:
+        _WARN["obj"][:] = _WARN["content"]
+        warnings.filters = _WARN["obj"]
+        warnings._filters_mutated()
     # best effort: bring the copy-protection bookkeeping (counters / flags, wherever the library keeps them) back to
     # the values it had at rest when this process first looked
     if not _SLOTS:
@@ -123,6 +132,21 @@ def reset_global_state():
             setter(k, v)
         except Exception:
             pass
+
+
+def warn_diff():
+    """The interpreter-global warning filters are global state too: a description of the change, or None."""
+    import warnings
+
+    if not _WARN:
+        return None
+    cur = list(warnings.filters)
+    if warnings.filters is _WARN["obj"] and cur == _WARN["content"]:
+        return None
+    # (catch_warnings installs a copy of the list and puts the original object back on exit: a different list object at
+    # rest is a leaked temporary, even when - the process already ignoring everything - its content looks the same)
+    added = [f for f in cur if f not in _WARN["content"]]
+    return f"warnings.filters {'is a different list object' if warnings.filters is not _WARN['obj'] else 'changed'}: {len(_WARN['content'])} -> {len(cur)} entries, added {added[:2]!r}"
 
 
 def table_diff():
@@ -260,6 +284,10 @@ def _run_seq(ctx, case):
         if extra or missing:
             ctx.fail(f"seq|{op[0]}|{outcome}|table_{'leak' if extra else 'lost'}", case, f"after op {i} {op} ({outcome}): dispatch_table has extra {extra} / lost {missing}")
             return
+        w = warn_diff()
+        if w:
+            ctx.fail(f"seq|{op[0]}|{outcome}|warning_filters_changed", case, f"after op {i} {op} ({outcome}): {w}")
+            return
         ctx.count(f"seq:{op[0]}:{outcome}")
         # abort points: every executed library line of this op
         total = tr.count
@@ -287,6 +315,10 @@ def _run_seq(ctx, case):
                 ctx.fail(f"abort|line@{where}|table_{'leak' if extra else 'lost'}", dict(case, fault=[i, n]),
                          f"op {i} {op} aborted at library line #{n} ({ft.where}): dispatch_table has extra {extra} / lost {missing}")
                 return
+            w = warn_diff()
+            if w:
+                ctx.fail(f"abort|line@{where}|warning_filters_changed", dict(case, fault=[i, n]), f"op {i} {op} aborted at library line #{n} ({ft.where}): {w}")
+                return
             ctx.count("abort_points")
         reset_global_state()
         cur = replay_history(ops[: i + 1]) if points else nxt
@@ -303,6 +335,22 @@ CRITICAL = {"__enter__", "__exit__", "protect_via_deepcopy"}
 PATCH = LockPatch()
 
 
+FIRST_USE_FUNCTIONS = {"build_attr_spec"}
+
+
+def _files(shape, narrow):
+    if "first_use" in shape:
+        return ("spec_class.py",)  # bootstrapping: the lines of build_attr_spec (one call per declared attribute)
+    return NARROW if narrow else FILES
+
+
+def _fresh_lazy_class(i):
+    from spec_classes import spec_class
+
+    ns = {"__annotations__": {"mods": list, "n": int}, "mods": [math, [sys]], "n": i, "__module__": "vf.generated"}
+    return spec_class(type(f"Lazy{i}", (), ns))
+
+
 def thread_fns(shape, n):
     Out = env()["Out"]
     values = [
@@ -314,6 +362,14 @@ def thread_fns(shape, n):
     shared = env()["Sh"]()
     for i in range(n):
         kind = shape[i % len(shape)]
+        if kind == "first_use":
+            # the first instance of a class nobody has used yet (module-bearing mutable default): bootstrapping + default copy
+            def ffn(cls=_fresh_lazy_class(i), i=i):
+                inst = cls()
+                return inst.n == i and inst.mods[0] is math and inst.mods is not cls.mods, inst
+
+            fns.append(ffn)
+            continue
         if kind.startswith("shared_"):
             def sfn(kind=kind):
                 if kind == "shared_deepcopy":
@@ -357,8 +413,11 @@ def run_conc(ctx, case):
     env()
     ensure_patched()
     reset_global_state()
-    sched = Scheduler(case["schedule"], files=NARROW if case.get("narrow") else FILES, timeout=30.0)
+    sched = Scheduler(case["schedule"], files=_files(case["shape"], case.get("narrow")), timeout=30.0)
     sched.critical_functions = CRITICAL
+    if "first_use" in case["shape"]:
+        sched.only_functions = FIRST_USE_FUNCTIONS
+        sched.critical_functions = FIRST_USE_FUNCTIONS
     PATCH.current = sched
     # whatever locks the library holds at module / class / singleton level become scheduler-aware for this run
     restore = PATCH.swap_live_locks(sched)
@@ -383,6 +442,10 @@ def run_conc(ctx, case):
     if extra or missing:
         ctx.fail(f"conc|table_{'leak' if extra else 'lost'}", case, f"after all threads finished: dispatch_table has extra {extra} / lost {missing}; schedule {case['schedule']}, switches {sched.switches}")
         return None
+    w = warn_diff()
+    if w:
+        ctx.fail("conc|warning_filters_changed", case, f"after all threads finished: {w}; schedule {case['schedule']}, switches {sched.switches}")
+        return None
     ctx.count("conc_runs")
     ctx.case(case, sched.preempted_inside_critical and bool(sched.switches))
     return sched
@@ -394,7 +457,9 @@ def count_steps(shape, threads, narrow=False):
     env()
     ensure_patched()
     reset_global_state()
-    sched = Scheduler([], files=NARROW if narrow else FILES, timeout=30.0)
+    sched = Scheduler([], files=_files(shape, narrow), timeout=30.0)
+    if "first_use" in shape:
+        sched.only_functions = FIRST_USE_FUNCTIONS
     sched.record = True
     PATCH.current = sched
     restore = PATCH.swap_live_locks(sched)
@@ -409,7 +474,7 @@ def count_steps(shape, threads, narrow=False):
 
 
 SHAPES = [["deepcopy", "deepcopy"], ["helper", "deepcopy"], ["protect", "helper"], ["deepcopy", "protect", "helper"],
-          ["shared_deepcopy", "shared_helper"], ["shared_helper", "shared_helper"]]
+          ["shared_deepcopy", "shared_helper"], ["shared_helper", "shared_helper"], ["first_use", "first_use"]]
 
 BOUNDS = {
     "quick": dict(seq_examples=40, seq_units=8, conc_hyp=40, double=False),
@@ -478,7 +543,7 @@ def run_unit(ctx, unit):
         narrow = bool(unit[5])
         total, first = count_steps(shape, unit[2], narrow)
         j = 0
-        stride = 1 if ctx.tier == "thorough" else 5  # quick: a seeded fifth of the pairs
+        stride = 1 if ctx.tier == "thorough" or "first_use" in shape else 5  # quick: a seeded fifth of the pairs (first_use: all, the space is small)
         for s1 in range(1, total + 1):
             for s2 in range(s1 + 1, total + 1):
                 j += 1
@@ -498,7 +563,8 @@ def run_unit(ctx, unit):
 
 def coverage_extra(tier, counters):
     return {"exhaustive": True,
-            "exhaustive_scope": "every single-preemption schedule (line granularity, utils/mutation.py + methods/core.py) for the 4 thread shapes"
+            "exhaustive_scope": "every single-preemption schedule (line granularity, utils/mutation.py + methods/core.py) for the 6 copying thread shapes; every single- and two-preemption schedule at the lines of "
+            "build_attr_spec for two threads making the first use of two different lazily bootstrapped classes"
             + ("; every" if tier == "thorough" else "; a seeded fifth of the") + " two-preemption schedules at the lines of utils/mutation.py for the 2-thread shapes"
             + (" and at the lines of both files" if tier == "thorough" else "")}
 
